@@ -54,9 +54,10 @@ fn group_text(g: &J) -> String {
 }
 fn query_text(q: &J) -> String {
     let sel: Vec<String> = q["sel"].as_array().unwrap().iter().map(|v| format!("?{}", v.as_str().unwrap())).collect();
+    let order = q.get("order").map(|o| if o["desc"].as_bool().unwrap() { format!(" ORDER BY DESC(?{})", o["v"].as_str().unwrap()) } else { format!(" ORDER BY ?{}", o["v"].as_str().unwrap()) }).unwrap_or_default();
     let head = if q["count"].as_bool().unwrap() { "SELECT (COUNT(*) AS ?c)".to_string() } else { format!("SELECT {}{}", if q["distinct"].as_bool().unwrap() { "DISTINCT " } else { "" }, sel.join(" ")) };
     let lim = q["limit"].as_i64().unwrap();
-    format!("{head} WHERE {}{}", group_text(&q["where"]), if lim >= 0 { format!(" LIMIT {lim}") } else { String::new() })
+    format!("{head} WHERE {}{order}{}", group_text(&q["where"]), if lim >= 0 { format!(" LIMIT {lim}") } else { String::new() })
 }
 
 struct Gen<'a> { rng: &'a mut StdRng, ns: i64, vars: Vec<(String, u8)> } // var kinds: 0 iri, 1 string, 2 int, 3 any
@@ -133,7 +134,17 @@ fn gen_query(rng: &mut StdRng, ns: i64) -> J {
     let count = g.rng.random_bool(0.1);
     let distinct = !count && g.rng.random_bool(0.3);
     let limit: i64 = if !count && g.rng.random_bool(0.2) { g.rng.random_range(0..=4) } else { -1 };
-    json!({"sel": sel, "distinct": distinct, "count": count, "limit": limit, "where": w})
+    let mut q = json!({"sel": sel, "distinct": distinct, "count": count, "limit": limit, "where": w});
+    // ORDER BY a selected variable that every solution binds (it occurs in a top-level triple pattern) and whose kind is known
+    if !count && g.rng.random_bool(0.25) {
+        let top: Vec<String> = q["where"].as_array().unwrap().iter().filter(|e| e["k"] == "tp").flat_map(|e| ["s", "p", "o"].iter().filter_map(|k| e[*k].get("v").and_then(|v| v.as_str()).map(|x| x.to_string())).collect::<Vec<_>>()).collect();
+        let cands: Vec<String> = q["sel"].as_array().unwrap().iter().map(|v| v.as_str().unwrap().to_string()).filter(|v| top.contains(v) && g.vars.iter().any(|(n, k)| n == v && *k < 3)).collect();
+        if !cands.is_empty() {
+            let v = cands[g.rng.random_range(0..cands.len())].clone();
+            q["order"] = json!({"v": v, "desc": g.rng.random_bool(0.5)});
+        }
+    }
+    q
 }
 
 fn rand_triples(rng: &mut StdRng, ns: i64, n: usize) -> Vec<[i64; 3]> {
